@@ -420,6 +420,27 @@ class Prover:
         return None
 
 
+APPROX_PREFIXES = ("any!", "all!", "any_of_unknown_collection", "all_of_unknown_collection")
+
+
+def _mentions_approximation(pc, goal):
+    seen = set()
+    todo = list(pc) + [goal]
+    while todo:
+        e = todo.pop()
+        if not z3.is_expr(e) or e.get_id() in seen:
+            continue
+        seen.add(e.get_id())
+        if z3.is_quantifier(e):
+            todo.append(e.body())
+            continue
+        if z3.is_app(e):
+            if e.num_args() == 0 and e.decl().kind() == z3.Z3_OP_UNINTERPRETED and e.decl().name().startswith(APPROX_PREFIXES):
+                return True
+            todo.extend(e.children())
+    return False
+
+
 # ---------------------------------------------------------------------------------
 # contracts
 
@@ -1333,6 +1354,11 @@ class FuncVC:
                     # what the change does to the property is for the postconditions and the bounded companion to say
                     status = UNDECIDED
                     detail = "the loop specification does not fit the code any more: " + detail
+                if status == FAILED and _mentions_approximation(pc, goal):
+                    # the VC speaks about the outcome of a construct the engine over-approximates (any()/all() over a
+                    # collection it knows nothing about): a counter-model may choose an outcome the code cannot produce
+                    status = UNDECIDED
+                    detail = "the counter-model may rest on an over-approximated any()/all(): " + detail
                 if status == FAILED and self.contract.replayer is not None and self.prover.last_model is not None:
                     try:
                         rp = self.contract.replayer(self.prover.last_model, ex.args, ex)
